@@ -404,6 +404,17 @@ def _run_gen(rec: _Recorder, tier: str, seed: int, shard: int, nshards: int) -> 
         except BaseException as e:  # hypothesis internal errors (Flaky, ...) are harness errors
             if isinstance(e, (KeyboardInterrupt, SystemExit)):
                 raise
+            if type(e).__name__ in ("FlakyFailure", "Flaky", "FlakyReplay") and rec.last_fail is not None:
+                # A violation was observed, but the same case passed when Hypothesis ran it again: the outcome depends on
+                # what the library was asked to do earlier in this process (state it keeps between calls). The observation
+                # stands; the replay file alone may not reproduce it.
+                case, v = rec.last_fail
+                rec.res.violations.append(
+                    {"check": check.name, "clause": v.clause,
+                     "message": v.message + " [not reproducible from this case alone: the library's answer depends on earlier calls in the same process]",
+                     "case": case}
+                )
+                return
             raise HarnessError(
                 "hypothesis/harness failure: "
                 + "".join(traceback.format_exception(type(e), e, e.__traceback__))
